@@ -57,15 +57,15 @@ impl AsRawMsg for Msg {
     fn from_raw_msg(msg: RawMsg) -> Result<Self> {
         let u32s = unsafe { msg.get_u32s() }?;
         let b = msg.get_bytes()?;
-        let cong_alg = if b[0] == 0 {
-            None
-        } else {
-            let end = b.iter().position(|&c| c == b'\0').unwrap_or(b.len());
-            if let Ok(s) = std::ffi::CStr::from_bytes_with_nul(&b[..end+1]) {
-                Some(s.to_str()?.to_owned())
-            } else {
-                None
-            }
+        if b.len() < 64 {
+            return Err(Error(format!(
+                "create message too short for algorithm name: {} < 64",
+                b.len()
+            )));
+        }
+        let cong_alg = match b.iter().position(|&c| c == b'\0') {
+            None | Some(0) => None,
+            Some(end) => Some(std::str::from_utf8(&b[..end])?.to_owned()),
         };
         Ok(Msg {
             sid: msg.sid,
